@@ -267,6 +267,46 @@ mut('c07-exhausted-no-close', ['C07'], AU,
 mut('ok-c07-pop0', ['C07'], AU,
     [("        self.authOrder = self.preference[:]\n        self.authOrder.reverse()\n", "        self.authOrder = list(reversed(self.preference))\n")], kind='benign')
 
+# ---- C03 ------------------------------------------------------------------
+MS = 'txdbus/message.py'
+mut('c03-prefix-reply-serial-untyped', ['C03'], MS,
+    [("                elif attr_name in ('unix_fds', 'reply_serial'):", "                elif attr_name == 'unix_fds':")], ['C03.D2'], note='pre-fix twin of 826cec0')
+mut('c03-prefix-flags-not-read', ['C03', 'C10'], MS,
+    [("    m.expectReply = not (hval[2] & 0x1)\n    m.autoStart = not (hval[2] & 0x2)\n", "")], ['C03.D3', 'C10.D5'], note='pre-fix twin of b7b8b77')
+mut('c03-prefix-truthy-validation', ['C03'], MS,
+    [("        if interface is not None:\n            marshal.validateInterfaceName(interface)", "        if interface:\n            marshal.validateInterfaceName(interface)")], ['C03.D7'], note='pre-fix twin of f317987')
+mut('c03-flag-polarity', ['C03'], MS,
+    [("    m.autoStart = not (hval[2] & 0x2)", "    m.autoStart = bool(hval[2] & 0x2)")], ['C03.D3'])
+mut('c03-flag-bits-swapped-writer', ['C03'], MS,
+    [("        if not self.expectReply:\n            flags |= 0x1\n\n        if not self.autoStart:\n            flags |= 0x2",
+      "        if not self.expectReply:\n            flags |= 0x2\n\n        if not self.autoStart:\n            flags |= 0x1")], ['C03.D3'])
+mut('c03-hcode-swap', ['C03'], MS,
+    [("    6: 'destination',\n    7: 'sender',", "    6: 'sender',\n    7: 'destination',")], ['C03.D1'])
+mut('c03-interface-required-for-call', ['C03'], MS,
+    [("        ('interface', 2, False),\n        ('member', 3, True),\n        ('destination', 6, False),\n        ('sender', 7, False),\n        ('signature', 8, False)\n    ]",
+      "        ('interface', 2, True),\n        ('member', 3, True),\n        ('destination', 6, False),\n        ('sender', 7, False),\n        ('signature', 8, False)\n    ]")], ['C03.D1'])
+mut('c03-bodylength-with-padding', ['C03'], MS,
+    [("        self.bodyLength = len(binBody)\n", "        self.bodyLength = len(binBody) + (8 - len(binBody) % 8) % 8\n")], ['C03.D4'])
+mut('c03-serial-starts-zero', ['C03'], MS,
+    [("    _nextSerial = 1\n", "    _nextSerial = 0\n")], ['C03.D5'])
+mut('c03-serial-increment-first', ['C03'], MS,
+    [("            self.serial = DBusMessage._nextSerial\n\n            DBusMessage._nextSerial += 1\n",
+      "            DBusMessage._nextSerial += 1\n\n            self.serial = DBusMessage._nextSerial\n")], kind='benign',
+    note='increment-then-read is still fresh and non-zero')
+mut('c03-size-guard-removed', ['C03'], MS,
+    [("        if len(self.rawMessage) > self._maxMsgLen:\n            raise error.MarshallingError(\n                'Marshalled message exceeds maximum message size of %d' %\n                (self._maxMsgLen,),\n            )\n", "")], ['C03.D6'])
+mut('c03-size-limit-2-28', ['C03'], MS,
+    [("    _maxMsgLen = 2**27", "    _maxMsgLen = 2**28")], ['C03.D6'])
+mut('c03-signal-member-unvalidated', ['C03'], MS,
+    [("        marshal.validateMemberName(member)\n        marshal.validateInterfaceName(interface)\n", "        marshal.validateInterfaceName(interface)\n")], ['C03.D7'])
+mut('c03-body-split-no-padding', ['C03'], MS,
+    [("    m.rawBody = rawMessage[nheader + npad:]", "    m.rawBody = rawMessage[nheader:]")], ['C03.D4'])
+mut('c03-parse-endian-inverted', ['C03'], MS,
+    [("    lendian = rawMessage[0] == b'l'[0]", "    lendian = rawMessage[0] != b'B'[0]")], kind='benign',
+    note='equivalent for the two valid endian bytes')
+mut('c03-serial-slot-wrong', ['C03'], MS,
+    [("    m.serial = hval[5]", "    m.serial = hval[4]")], ['C03.D3'])
+
 # benign variants --------------------------------------------------------------
 mut('ok-int16-condexpr', ['C01', 'C02'], M,
     [("return 2, [struct.pack(lendian and '<h' or '>h', var)]",
